@@ -4,11 +4,16 @@
    All statements are for EVERY snapshot sequence (hence every document), by induction over the sequence, then the tree.
    Characters are compared through `visc` (the characters that are not white space): S compares modulo TTML white-space
    handling (C13), and white space is what the writers' normalize_eol may drop.  Line-break placement and the white-space
-   normal form are compared on generated documents only (harness/c06.py against Spec/CueSpec.v cues_ok). *)
+   normal form are compared on generated documents only (harness/c06.py against Spec/CueSpec.v cues_ok).
+   `base_text` / `base_leaves`: the Br/Text leaves outside ruby annotations (rt, rtc, rp) — ruby base text is carried by the
+   repaired writers, annotation text is not (S accepts a payload with or without it).
+   SubRip has no escape mechanism: the text statements for the SubRip writer are for text without "<" (the blank test of the
+   writer removes what reads as a tag); the WebVTT statements have no such restriction. *)
 From Coq Require Import Sorting.Sorted.
 From TT Require Import Model.Doc Gen.StyleTables Model.Isd Model.SigTimes Model.TimeCode Model.IsdFilters Gen.CueTables Model.CueWriter.
 From TT Require Import Model.CueTriggers Spec.IsdSpec Spec.CueSpec.
-From TT Require Import Proofs.C06.Filters Proofs.C06.Inline Proofs.C06.Loop Proofs.C06.Text Proofs.C06.SpecLink Proofs.C06.Shape Proofs.C06.Exists Proofs.C06.Breaks.
+From TT Require Import Proofs.C06.Filters Proofs.C06.Inline Proofs.C06.Strip Proofs.C06.Loop Proofs.C06.Text Proofs.C06.SpecLink Proofs.C06.Shape Proofs.C06.Exists Proofs.C06.Breaks.
+From TT Require Import Proofs.C06.Content Proofs.C06.Fixed Proofs.C06.BaseSpec.
 
 (* ---- the ISD filters keep the leaves -------------------------------------------------------------------------------------- *)
 (* region merging keeps every Br/Text leaf, in region then document order (repaired code: every division of every region) *)
@@ -19,6 +24,13 @@ Proof. exact merge_regions_preserves_leaves. Qed.
 Theorem C06_merge_paragraphs_preserves_leaves : forall rs,
   paragraphs_shape rs = true -> flat_map leaves_text (merge_paragraphs rs) = flat_map leaves_text rs.
 Proof. exact merge_paragraphs_preserves_leaves. Qed.
+(* ... and the same outside ruby annotations (what the writers carry) *)
+Theorem C06_merge_regions_preserves_base : forall rs,
+  regions_shape rs = true -> flat_map base_leaves (merge_regions rs) = flat_map base_leaves rs.
+Proof. exact merge_regions_preserves_base. Qed.
+Theorem C06_merge_paragraphs_preserves_base : forall rs,
+  paragraphs_shape rs = true -> flat_map base_text (merge_paragraphs rs) = flat_map base_text rs.
+Proof. exact merge_paragraphs_preserves_base. Qed.
 Theorem C06_style_filters_preserve_leaves : forall f rs,
   match f with FSupported _ | FDefaults _ => True | _ => False end ->
   flat_map shown_leaves (apply_filter f rs) = flat_map shown_leaves rs.
@@ -27,6 +39,9 @@ Proof. exact style_filters_preserve_leaves. Qed.
 Theorem C06_filters_preserve_text : forall merge c d rs,
   snapshot_shape rs = true -> flat_map leaves_text (apply_filters (writer_filters merge c d) rs) = flat_map leaves_text rs.
 Proof. exact filters_preserve_text. Qed.
+Theorem C06_filters_preserve_base : forall merge c d rs,
+  snapshot_shape rs = true -> flat_map base_text (apply_filters (writer_filters merge c d) rs) = flat_map base_text rs.
+Proof. exact filters_preserve_base. Qed.
 Theorem C06_srt_filters_form : exists c d, srt_filters = writer_filters true c d.
 Proof. exact srt_filters_form. Qed.
 Theorem C06_vtt_filters_form : forall cfg fs, vtt_filters cfg = Some fs -> exists c d, fs = writer_filters (negb (line_position cfg)) c d.
@@ -47,23 +62,28 @@ Theorem C06_sequence_times : forall d seq, isd_sequence d = Ok seq -> sig d = Ok
 Proof. exact sequence_times. Qed.
 
 (* ---- text -------------------------------------------------------------------------------------------------------------------- *)
-(* group by group: the cues of a snapshot hold exactly the visible characters of the snapshot's text leaves, in region then
-   document order, nothing dropped, invented, repeated or reordered — when the writer's dispatch skips no element that holds
-   text (srt_sees_all / vtt_sees_all of the filtered snapshot; false exactly under the recorded findings writers-skip-ruby and
-   vtt-nested-div-lost) *)
-Theorem C06_text_partial_srt : forall fmt seq cs,
+(* the blank test of the repaired writers (the paragraph text without its tags is empty or white space) decides exactly whether the
+   characters of the paragraph are all white space: WebVTT always, SubRip when no character is "<" *)
+Theorem C06_blank_test_vtt : forall c, items_ok vtt_tag_ok (c_items c) -> vtt_blank c = only_whitespace (cue_chars c).
+Proof. exact vtt_blank_exact. Qed.
+Theorem C06_blank_test_srt : forall c, items_ok srt_tag_ok (c_items c) -> ~ In 60 (cue_chars c) -> srt_blank c = only_whitespace (cue_chars c).
+Proof. exact srt_blank_exact. Qed.
+(* group by group: the cues of a snapshot hold exactly the visible characters of the snapshot's text leaves outside ruby annotations,
+   in region then document order, nothing dropped, invented, repeated or reordered — when the writer's dispatch skips no element that
+   holds text (srt_sees_all / vtt_sees_all of the filtered snapshot: true for every snapshot of a document that follows the content
+   model, C06_content_sees_all below) *)
+Theorem C06_text_srt : forall fmt seq cs,
   srt_cues fmt seq = Ok cs -> cue_groups (fun _ _ regions group => text_ok srt_sees_all srt_filters regions group) seq cs.
 Proof. exact text_partial_srt. Qed.
-Theorem C06_text_partial_vtt : forall cfg fs seq cs css,
+Theorem C06_text_vtt : forall cfg fs seq cs css,
   vtt_filters cfg = Some fs -> vtt_cues cfg seq = Ok (cs, css) ->
   cue_groups (fun _ _ regions group => text_ok vtt_sees_all fs regions group) seq cs.
 Proof. exact text_partial_vtt. Qed.
-(* the whole output: all visible characters of all snapshots, once each, in order.
-   FULL STATEMENT (false of the faithful model, refuted in Findings/C06.v): the same without the trig_lost_* hypothesis. *)
-Theorem C06_text_total_partial_srt : forall fmt seq cs,
+(* the whole output: all visible characters of all snapshots, once each, in order *)
+Theorem C06_text_total_srt : forall fmt seq cs,
   seq_shape seq = true -> trig_lost_srt seq = false -> srt_cues fmt seq = Ok cs -> visc (flat_map cue_chars cs) = visc (seq_text seq).
 Proof. exact srt_text_total. Qed.
-Theorem C06_text_total_partial_vtt : forall cfg seq cs css,
+Theorem C06_text_total_vtt : forall cfg seq cs css,
   seq_shape seq = true -> trig_lost_vtt cfg seq = false -> vtt_cues cfg seq = Ok (cs, css) -> visc (flat_map cue_chars cs) = visc (seq_text seq).
 Proof. exact vtt_text_total. Qed.
 
@@ -78,35 +98,44 @@ Theorem C06_breaks_between_paragraphs_vtt : forall ps s,
   chars_of (fst (vtt_inlines (join_paragraphs ps) s)) = join_text [10] (map (para_chars false) ps).
 Proof. exact join_paragraphs_chars_vtt. Qed.
 
-(* which cues exist: a snapshot that shows visible text gets a cue; one that shows none gets none — unless a paragraph survives
-   the white-space test only because of its tags (recorded finding tags-only-cue; FULL STATEMENT without trig_tags_only refuted in
-   Findings/C06.v) *)
-Theorem C06_cues_exist_partial_srt : forall fmt seq cs, srt_cues fmt seq = Ok cs ->
+(* which cues exist: every cue holds visible text (no hypothesis); a snapshot that shows visible text gets a cue; one that shows none
+   gets none *)
+Theorem C06_cues_nonblank_srt : forall fmt seq cs, srt_cues fmt seq = Ok cs -> Forall (fun c => visc (cue_chars c) <> []) cs.
+Proof. exact srt_cues_nonblank. Qed.
+Theorem C06_cues_nonblank_vtt : forall cfg seq cs css, vtt_cues cfg seq = Ok (cs, css) -> Forall (fun c => visc (cue_chars c) <> []) cs.
+Proof. exact vtt_cues_nonblank. Qed.
+Theorem C06_cues_exist_srt : forall fmt seq cs, srt_cues fmt seq = Ok cs ->
   cue_groups (fun _ _ regions group =>
                 snapshot_shape regions = true -> srt_sees_all (apply_filters srt_filters regions) = true ->
-                (visc (flat_map leaves_text regions) <> [] -> group <> []) /\
-                (visc (flat_map leaves_text regions) = [] -> trig_tags_only group = false -> group = [])) seq cs.
+                (visc (flat_map base_text regions) <> [] -> group <> []) /\
+                (visc (flat_map base_text regions) = [] -> group = [])) seq cs.
 Proof. exact srt_cues_exist. Qed.
-Theorem C06_cues_exist_partial_vtt : forall cfg fs seq cs css, vtt_filters cfg = Some fs -> vtt_cues cfg seq = Ok (cs, css) ->
+Theorem C06_cues_exist_vtt : forall cfg fs seq cs css, vtt_filters cfg = Some fs -> vtt_cues cfg seq = Ok (cs, css) ->
   cue_groups (fun _ _ regions group =>
                 snapshot_shape regions = true -> vtt_sees_all (apply_filters fs regions) = true ->
-                (visc (flat_map leaves_text regions) <> [] -> group <> []) /\
-                (visc (flat_map leaves_text regions) = [] -> trig_tags_only group = false -> group = [])) seq cs.
+                (visc (flat_map base_text regions) <> [] -> group <> []) /\
+                (visc (flat_map base_text regions) = [] -> group = [])) seq cs.
 Proof. exact vtt_cues_exist. Qed.
 
 (* the shape hypothesis holds for every snapshot of the sequence of a document whose body follows the content model of model.py
    (body > div > (div | p)*; regions are regions): snapshot generation and the per-region clones of the cache keep kinds *)
 Theorem C06_sequence_shape : forall d seq, doc_block_wf d = true -> isd_sequence d = Ok seq -> seq_shape seq = true.
 Proof. exact sequence_shape. Qed.
-(* hence, document level *)
-Theorem C06_text_document_partial_srt : forall d fmt seq cs,
-  doc_block_wf d = true -> isd_sequence d = Ok seq -> trig_lost_srt seq = false -> srt_cues fmt seq = Ok cs ->
+(* ... and for a document that follows the whole content model (p > span | br | ruby, span > span | br | text, the ruby patterns)
+   the dispatch of both writers reaches every text leaf outside ruby annotations, in every snapshot, after the filters *)
+Theorem C06_content_sees_all : forall d seq, doc_content_wf d = true -> isd_sequence d = Ok seq ->
+  seq_shape seq = true /\ (forall cfg, trig_lost_vtt cfg seq = false) /\ (has_lt (seq_text seq) = false -> trig_lost_srt seq = false).
+Proof. exact content_sees_all. Qed.
+(* hence, document level: every visible character of every snapshot outside ruby annotations — ruby base text, the text of second
+   and later divisions, of nested divisions, of every region — is in the cues, once, in order, and nothing else is *)
+Theorem C06_text_document_vtt : forall d cfg seq cs css,
+  doc_content_wf d = true -> isd_sequence d = Ok seq -> vtt_cues cfg seq = Ok (cs, css) ->
   visc (flat_map cue_chars cs) = visc (seq_text seq).
-Proof. exact srt_text_document. Qed.
-Theorem C06_text_document_partial_vtt : forall d cfg seq cs css,
-  doc_block_wf d = true -> isd_sequence d = Ok seq -> trig_lost_vtt cfg seq = false -> vtt_cues cfg seq = Ok (cs, css) ->
+Proof. exact vtt_text_content. Qed.
+Theorem C06_text_document_srt : forall d fmt seq cs,
+  doc_content_wf d = true -> isd_sequence d = Ok seq -> has_lt (seq_text seq) = false -> srt_cues fmt seq = Ok cs ->
   visc (flat_map cue_chars cs) = visc (seq_text seq).
-Proof. exact vtt_text_document. Qed.
+Proof. exact srt_text_content. Qed.
 
 (* what the leaves of an uncached snapshot are: per region, the leaves the per-leaf TTML specification of C01 selects (the cached
    snapshots the sequence holds are the uncached ones: C14) *)
@@ -123,14 +152,45 @@ Theorem C06_spec_vis_is_leaves : forall d t,
   match d_body d with Some b => leaves_in_p b = true | None => True end ->
   tok_chars (vis true d t) = nb (flat_map leaf_chars (flat_map (fun r => leaves_spec d t (eattrs r) (region_sel d r)) (doc_regions d))).
 Proof. exact vis_leaves. Qed.
-(* end to end for one (uncached) snapshot: document -> snapshot (C01) -> filters -> SubRip cues = the visible text of S at t *)
+(* end to end for one (uncached) snapshot: document -> snapshot (C01) -> filters -> SubRip cues = the visible text of S at t
+   (snapshots without annotation text) *)
+Theorem C06_srt_snapshot_spec_partial : forall d t fmt b en n regions cs n',
+  Forall (fun r => e_kind (eattrs r) = KRegion) (d_regions d) ->
+  match d_body d with Some bd => leaf_wf bd = true /\ leaves_in_p bd = true | None => True end ->
+  isd d t = Ok regions -> snapshot_shape regions = true -> srt_sees_all (apply_filters srt_filters regions) = true ->
+  flat_map base_text regions = flat_map leaves_text regions ->
+  srt_add_isd fmt b en (apply_filters srt_filters regions) n = (cs, n') ->
+  visc (flat_map cue_chars cs) = visc (tok_chars (vis true d t)).
+Proof. exact srt_snapshot_spec. Qed.
+
+(* the same outside ruby annotations: the base leaves of an uncached snapshot are the leaves the per-leaf specification selects whose
+   chain of ancestors holds no rt / rtc / rp; `vis false` of Spec/CueSpec.v holds exactly their non-blank characters; hence, end to end
+   for one snapshot, ruby included: document -> snapshot (C01) -> filters -> cues of either writer = the visible text S prescribes
+   at t under the reading "annotation text is not part of the payload" *)
+Theorem C06_snapshot_base_spec : forall d t rs,
+  Forall (fun r => e_kind (eattrs r) = KRegion) (d_regions d) ->
+  match d_body d with Some b => leaf_wf b = true | None => True end ->
+  isd d t = Ok rs ->
+  flat_map base_leaves rs = flat_map (fun r => base_spec d t (eattrs r) (region_sel d r)) (doc_regions d).
+Proof. exact isd_base. Qed.
+Theorem C06_spec_vis_is_base : forall d t,
+  match d_body d with Some b => leaves_in_p b = true | None => True end ->
+  tok_chars (vis false d t) = nb (flat_map leaf_chars (flat_map (fun r => base_spec d t (eattrs r) (region_sel d r)) (doc_regions d))).
+Proof. exact vis_base. Qed.
 Theorem C06_srt_snapshot_spec : forall d t fmt b en n regions cs n',
   Forall (fun r => e_kind (eattrs r) = KRegion) (d_regions d) ->
   match d_body d with Some bd => leaf_wf bd = true /\ leaves_in_p bd = true | None => True end ->
   isd d t = Ok regions -> snapshot_shape regions = true -> srt_sees_all (apply_filters srt_filters regions) = true ->
   srt_add_isd fmt b en (apply_filters srt_filters regions) n = (cs, n') ->
-  visc (flat_map cue_chars cs) = visc (tok_chars (vis true d t)).
-Proof. exact srt_snapshot_spec. Qed.
+  visc (flat_map cue_chars cs) = visc (tok_chars (vis false d t)).
+Proof. exact srt_snapshot_base. Qed.
+Theorem C06_vtt_snapshot_spec : forall d t cfg fs b en st regions cs st',
+  Forall (fun r => e_kind (eattrs r) = KRegion) (d_regions d) ->
+  match d_body d with Some bd => leaf_wf bd = true /\ leaves_in_p bd = true | None => True end ->
+  vtt_filters cfg = Some fs -> isd d t = Ok regions -> snapshot_shape regions = true -> vtt_sees_all (apply_filters fs regions) = true ->
+  vtt_regions cfg b en (apply_filters fs regions) st = Ok (cs, st') ->
+  visc (flat_map cue_chars cs) = visc (tok_chars (vis false d t)).
+Proof. exact vtt_snapshot_base. Qed.
 
 (* the hypotheses are satisfiable, non-vacuously (Proofs/C06/Text.v c06_example: two regions, two divisions, nested span, br) *)
 Example C06_hypotheses_satisfiable :
@@ -139,14 +199,33 @@ Example C06_hypotheses_satisfiable :
   exists cs, srt_cues true c06_example = Ok cs /\ flat_map cue_chars cs = [97; 32; 98; 10; 10; 99; 10; 100] /\
              visc (seq_text c06_example) = [97; 98; 99; 100].
 Proof. exact c06_example_ok. Qed.
+(* the witnesses of the repaired defects, on the model: ruby base text, nested divisions, tags-only paragraphs *)
+Example C06_fixed_ruby :
+  payloads (srt_from_model w_ruby true) srt_parse = Some [[112;114;101;66;65;83;69;112;111;115;116]] /\
+  payloads (vtt_from_model w_ruby dflt) vtt_parse = Some [[112;114;101;66;65;83;69;112;111;115;116]].
+Proof. exact fixed_ruby. Qed.
+Example C06_fixed_nested_div :
+  payloads (vtt_from_model w_nested dflt) vtt_parse = Some [[110;101;115;116;101;100]] /\
+  payloads (srt_from_model w_nested true) srt_parse = Some [[110;101;115;116;101;100]].
+Proof. exact fixed_nested_div. Qed.
+Example C06_fixed_tags_only :
+  srt_from_model w_tagsonly true = Ok [] /\ payloads (vtt_from_model w_tagsonly dflt) vtt_parse = Some [].
+Proof. exact fixed_tags_only. Qed.
+Example C06_content_wf_satisfiable : doc_content_wf w_ruby = true /\ doc_content_wf w_nested = true.
+Proof. split; reflexivity. Qed.
 
 Print Assumptions C06_merge_regions_preserves_leaves.  Print Assumptions C06_merge_paragraphs_preserves_leaves.
-Print Assumptions C06_style_filters_preserve_leaves.  Print Assumptions C06_filters_preserve_text.
+Print Assumptions C06_merge_regions_preserves_base.  Print Assumptions C06_merge_paragraphs_preserves_base.
+Print Assumptions C06_style_filters_preserve_leaves.  Print Assumptions C06_filters_preserve_text.  Print Assumptions C06_filters_preserve_base.
 Print Assumptions C06_srt_filters_form.  Print Assumptions C06_vtt_filters_form.
 Print Assumptions C06_times_srt.  Print Assumptions C06_times_vtt.  Print Assumptions C06_sequence_times.
-Print Assumptions C06_text_partial_srt.  Print Assumptions C06_text_partial_vtt.
-Print Assumptions C06_text_total_partial_srt.  Print Assumptions C06_text_total_partial_vtt.
+Print Assumptions C06_blank_test_vtt.  Print Assumptions C06_blank_test_srt.
+Print Assumptions C06_text_srt.  Print Assumptions C06_text_vtt.
+Print Assumptions C06_text_total_srt.  Print Assumptions C06_text_total_vtt.
 Print Assumptions C06_br_is_line_feed.  Print Assumptions C06_breaks_between_paragraphs.  Print Assumptions C06_breaks_between_paragraphs_vtt.
-Print Assumptions C06_cues_exist_partial_srt.  Print Assumptions C06_cues_exist_partial_vtt.
-Print Assumptions C06_sequence_shape.  Print Assumptions C06_text_document_partial_srt.  Print Assumptions C06_text_document_partial_vtt.
-Print Assumptions C06_snapshot_leaves_spec.  Print Assumptions C06_spec_vis_is_leaves.  Print Assumptions C06_srt_snapshot_spec.
+Print Assumptions C06_cues_nonblank_srt.  Print Assumptions C06_cues_nonblank_vtt.
+Print Assumptions C06_cues_exist_srt.  Print Assumptions C06_cues_exist_vtt.
+Print Assumptions C06_sequence_shape.  Print Assumptions C06_content_sees_all.
+Print Assumptions C06_text_document_srt.  Print Assumptions C06_text_document_vtt.
+Print Assumptions C06_snapshot_leaves_spec.  Print Assumptions C06_spec_vis_is_leaves.  Print Assumptions C06_srt_snapshot_spec_partial.
+Print Assumptions C06_snapshot_base_spec.  Print Assumptions C06_spec_vis_is_base.  Print Assumptions C06_srt_snapshot_spec.  Print Assumptions C06_vtt_snapshot_spec.
